@@ -520,13 +520,18 @@ Definition literal_round (ip fp : str) (ex : Z) : option (N * Z) :=
   else if (0 <=? k)%Z then f64_round (d * pow10 (Z.to_N k)) 1
   else f64_round d (pow10 (Z.to_N (- k))).
 
-(* json number token -> value as UnmarshalJSON/setScalarFromJson see it:
-   float64 first, then int if float64(int64(f)) == f (amd64 conversion:
-   out-of-range gives MinInt64, so only [-2^63, 2^63) can match) *)
+(* json number token -> value as UnmarshalJSON/setScalarFromJson see it: an
+   integer literal that strconv.ParseInt(.,10,64) accepts is kept exactly;
+   everything else goes through float64 and is an int if
+   float64(int64(f)) == f (amd64 conversion: out-of-range gives MinInt64, so
+   only [-2^63, 2^63) can match) *)
 Definition classify_number (s : str) : res jvalue :=
   match split_number s with
   | None => Err ESyntax
   | Some (neg, ip, fp, ex) =>
+      match go_parse_int 10 s with
+      | Some z => Ok (JInt z)
+      | None =>
       match literal_round ip fp ex with
       | None => Err ERange
       | Some (m, e) =>
@@ -536,6 +541,7 @@ Definition classify_number (s : str) : res jvalue :=
               else (if k <? two63 then Ok (JInt (Z.of_N k)) else Ok (JFloat s))
           | None => Ok (JFloat s)
           end
+      end
       end
   end.
 
@@ -763,13 +769,12 @@ Fixpoint of_json (v : jvalue) : node :=
 
 Definition two53 : Z := 9007199254740992.
 
-(* values the reader returns unchanged: no float token, integers exactly
-   representable in binary64 through the decimal path (|z| <= 2^53),
+(* values the reader returns unchanged: no float token, int64 integers,
    strings and keys well-formed UTF-8 *)
 Fixpoint rt_domain (v : jvalue) : bool :=
   match v with
   | JNull | JBool _ => true
-  | JInt z => (Z.abs z <=? two53)%Z
+  | JInt z => ((- Z.of_N two63 <=? z) && (z <? Z.of_N two63))%Z
   | JFloat _ => false
   | JStr s => valid_utf8 s
   | JArr l => forallb rt_domain l
